@@ -546,10 +546,11 @@ def apalache_metadata(tier, d):
         rc, o = C.sh(["timeout", str(to), "apalache-mc", "check", "--cinit=ConstInit", "--inv=IndInv",
                       "--out-dir=" + os.path.join(d, "apalache"), "--run-dir=" + os.path.join(d, "apalache", "run")] + args +
                      [os.path.join(C.SPEC, "ApaMetadata.tla")], cwd=C.SPEC,
-                     env={"JVM_ARGS": "-Djava.io.tmpdir=" + C.ensure_dir(os.path.join(d, "jtmp"))})
+                     env={"TMPDIR": C.ensure_dir(os.path.join(d, "jtmp"))})    # the launcher makes its SANY dir with mktemp -t
         if rc != 0 or "The outcome is: NoError" not in o:
             raise C.ToolError("apalache %s case of ApaMetadata!IndInv failed (rc %d):\n%s" % (name, rc, o[-1500:]))
         out["apalache_%s_wall_s" % name] = round(time.time() - t0, 1)
+        shutil.rmtree(os.path.join(d, "jtmp"), ignore_errors=True)
     out["apalache_inductive_step_checked"] = tier == "thorough"
     return out
 
